@@ -361,7 +361,11 @@ def wake_order():
     mr = body(0, "mark_received")
     reg = poll.find("replace_waker(")
     chk = poll.find("swap_state(FrameState::RxDone")
+    if chk < 0:
+        chk = poll.find("FrameState::RxDone")          # however the test is written
     done = mr.find("swap_state(FrameState::RxBusy, FrameState::RxDone")
+    if done < 0:
+        done = mr.find("FrameState::RxDone")           # however RxDone is stored
     wake = mr.find(".wake()")
     if min(reg, chk, done, wake) < 0:
         raise Refuse(f"wake protocol anchors not found in {rel} (reg {reg}, check {chk}, done {done}, wake {wake})")
